@@ -46,6 +46,11 @@ def _gen_scalar(r, t, mode):
     raise ValueError(t)
 
 
+# (schema, paths) of the fields that are 64 bits wide in WhatsApp's schema
+WIDE_FIELDS = [("image", ["dl.file_length"]), ("video", ["dl.file_length"]), ("audio", ["dl.file_length"]), ("document", ["dl.file_length"]),
+               ("sticker", ["dl.file_length"])]
+
+
 def gen_spec(r, name, depth, required):
     """a JSON-able spec of an attribute object: {path: ["none"] | ["falsy"] | ["val", seed] | ["sub", spec]}"""
     spec = {}
@@ -115,6 +120,8 @@ def build_obj(name, spec, given=None):
             vals[p] = ps.falsy(t)
         elif s[0] == "val":
             vals[p] = _gen_scalar(random.Random(s[1]), t, "val")
+        elif s[0] == "lit":
+            vals[p] = s[1]
         else:
             sub = {} if given is not None else None
             vals[p] = build_obj(t[4:], s[1], sub)
@@ -196,6 +203,7 @@ def required_fields(chk):
 def cases(chk):
     r = chk.rng
     req = required_fields(chk)
+    _REQUIRED.update(req)
     names = [s[0] for s in ps.SCHEMAS]
     # every schema with everything unset / everything falsy / everything set
     for name in names:
@@ -220,6 +228,20 @@ def cases(chk):
     for _ in range(chk.scale(4000, 80000)):
         name = r.choice(names + ["message", "message", "contextinfo"])
         yield "object", {"schema": name, "spec": gen_spec(r, name, 0, req)}
+    # the 64-bit fields of WhatsApp's payload schema (file lengths, media key timestamps — pinned here from the published schema, not read from the
+    # library's copy of it) with values that need more than 32 bits: a 4 GiB video is a legal message
+    import random
+    r2 = random.Random(6400 + chk.seed)
+    for name, fields in WIDE_FIELDS:
+        for f in fields:
+            for v in (2 ** 32 - 1, 2 ** 32, 2 ** 32 + 5, 2 ** 40 + 123, 2 ** 63 - 1, 2 ** 63 + 9, 2 ** 64 - 1):
+                keep = {f: ["lit", v]}
+                if name == "document" and f == "dl.file_length":
+                    keep["file_length"] = ["lit", v]          # (the two file_length attributes agree: see the recorded finding)
+                inner = only(r2, name, keep, req)
+                field = [p for p, t in ps.flat_fields("message") if t == "sub:" + name][0]
+                yield "object", {"schema": name, "spec": inner}
+                yield "object", {"schema": "message", "spec": only(r2, "message", {field: ["sub", inner]}, req)}
     # two objects built from defaults, one of them edited in place: the other must not change (shared mutable defaults, class-level state)
     for name in sorted(ps._classes()):
         yield "aliasing", {"schema": name}
@@ -239,16 +261,24 @@ def nontrivial(stream, case):
     return (case["schema"], shape(case["spec"]))
 
 
+_REQUIRED = {}       # schema -> required paths (filled by cases()): the shrinker never unsets these — a spec without them is not a message anybody can compose
+
+
 def shrink(stream, case):
     if stream != "object":
         return
-    spec = case["spec"]
+    for spec in _shrink_spec(case["schema"], case["spec"]):
+        yield dict(case, spec=spec)
+
+
+def _shrink_spec(name, spec):
+    types = dict(ps.flat_fields(name))
     for p, s in spec.items():
-        if s[0] in ("val", "falsy", "sub"):
-            yield dict(case, spec=dict(spec, **{p: ["none"]}))
+        if s[0] in ("val", "falsy", "sub", "lit") and p not in _REQUIRED.get(name, ()):
+            yield dict(spec, **{p: ["none"]})
         if s[0] == "sub":
-            for sub in shrink("object", {"schema": "", "spec": s[1]}):
-                yield dict(case, spec=dict(spec, **{p: ["sub", sub["spec"]]}))
+            for sub in _shrink_spec(types[p][4:], s[1]):
+                yield dict(spec, **{p: ["sub", sub]})
 
 
 def _diff(name, a, b, path=""):
